@@ -1,6 +1,8 @@
 import ZmqVerif.Lemmas.WorldMaps
 import ZmqVerif.Spec.Compat
 import ZmqVerif.Lemmas.WorldHandshake
+import ZmqVerif.Lemmas.WorldAdmit
+import ZmqVerif.Lemmas.WorldHandshakeIf
 /-!
 # C04 — the handshake admits exactly the well-formed, RFC-compatible peers
 
@@ -197,5 +199,93 @@ theorem C04_world_handshake_reveal {t : SockType} {total : RunOut} {stage : ASta
 theorem C04_world_handshake_frame {t : SockType} {total : RunOut} {stage : AStage} {rd : Rd} {ps ps' : Pipes}
     (h : HS t total stage rd ps) (hf : inbufOf ps' rd.pipe = inbufOf ps rd.pipe) : HS t total stage rd ps' :=
   h.frame hf
+
+
+/-! ### socket level, the "if" direction: the poll that decides -/
+
+open Zmq.W in
+/-- **The deciding poll** (`C04_world_handshake_*` are the "only if" half).  The handshake future waits for the peer's
+READY and the rest of the connection's byte stream begins with a complete command carrying `props` — however it was
+segmented.  Then this one poll decides, exactly as `admitPeer` says: refused ⇒ the future fails with that error;
+admitted under `ident` ⇒ (every socket type but SUB, whose registration first announces its subscriptions) the future
+completes with `Ok(ident)` and the peer is in the socket's peer table under `ident` with this connection's write half. -/
+theorem C04_world_deciding_poll (fuel : Nat) (w : World) (sid pid : Nat) (rd : Rd) (wr : Wr) (s : Socket)
+    (hs : getSock w sid = some s) (props : List (Bytes × Bytes)) (rest : List Item)
+    (hitems : rd.items w.pipes = .command props :: rest) (w' : World) (f' : FutSt) (o : POut)
+    (h : attachPoll (fuel + 1) w sid pid .readReady rd wr = (w', f', o)) :
+    match (generalizing := false) admitPeer s.typ props w.fresh with
+    | .error e => o = .ready (.err e) ∧ f' = .done
+    | .ok (ident, _) =>
+        s.typ ≠ .sub → o = .ready (.okId ident) ∧ f' = .done ∧
+          (s.dead = false → ∃ s', getSock w' sid = some s' ∧ ilookup s'.peers ident = some wr) :=
+  attachPoll_readReady_decides fuel w sid pid rd wr s hs props rest hitems w' f' o h
+
+open Zmq.W in
+/-- … with `C04_admit_iff`: a READY that carries a known Socket-Type compatible with the local type under the RFC table
+and an Identity of at most 255 bytes (if any) IS admitted by that poll — the connection becomes a peer; any other READY
+is refused by it with an error. -/
+theorem C04_world_admitted_iff_admissible (fuel : Nat) (w : World) (sid pid : Nat) (rd : Rd) (wr : Wr) (s : Socket)
+    (hs : getSock w sid = some s) (hns : s.typ ≠ .sub) (props : List (Bytes × Bytes)) (rest : List Item)
+    (hitems : rd.items w.pipes = .command props :: rest) (w' : World) (f' : FutSt) (o : POut)
+    (h : attachPoll (fuel + 1) w sid pid .readReady rd wr = (w', f', o)) :
+    (Admissible s.typ props → ∃ ident, o = .ready (.okId ident)) ∧
+    (¬ Admissible s.typ props → ∃ e, o = .ready (.err e)) := by
+  have hd := attachPoll_readReady_decides fuel w sid pid rd wr s hs props rest hitems w' f' o h
+  constructor
+  · intro ha
+    obtain ⟨r, hr⟩ := (C04_admit_iff s.typ props w.fresh).mpr ha
+    rcases r with ⟨ident, fr⟩
+    simp only [hr] at hd
+    exact ⟨ident, (hd hns).1⟩
+  · intro hna
+    cases hr : admitPeer s.typ props w.fresh with
+    | error e => simp only [hr] at hd; exact ⟨e, hd.1⟩
+    | ok r => exact absurd ((C04_admit_iff s.typ props w.fresh).mp ⟨r, hr⟩) hna
+
+open Zmq.W in
+/-- the poll that reads the peer's GREETING decides too: with a complete item at the head of the connection's byte
+stream, a greeting of a version below 3.0 fails the handshake with `UnsupportedVersion`, and anything that is not a
+greeting fails it — a rejected connection never gets as far as READY -/
+theorem C04_world_greeting_poll_rejects (fuel : Nat) (w : World) (sid pid : Nat) (rd : Rd) (wr : Wr) (s : Socket)
+    (hs : getSock w sid = some s) (i : Item) (rest : List Item)
+    (hitems : rd.items w.pipes = i :: rest) (w' : World) (f' : FutSt) (o : POut)
+    (h : attachPoll (fuel + 1) w sid pid .readGreeting rd wr = (w', f', o)) :
+    match (generalizing := false) i with
+    | .greeting g =>
+        ¬ (g.major.toNat > 3 ∨ (g.major.toNat = 3 ∧ g.minor.toNat ≥ 0)) → o = .ready (.err .unsupportedVersion) ∧ f' = .done
+    | _ => o = .ready (.err .other) ∧ f' = .done :=
+  attachPoll_readGreeting_rejects fuel w sid pid rd wr s hs i rest hitems w' f' o h
+
+open Zmq.W in
+/-- **"If", end to end.**  A socket (any type but SUB, alive) starts the handshake on a connection whose write side takes
+everything at once, and the connection's byte stream — in whatever segmentation it arrived — begins with a greeting of an
+acceptable version followed by a READY that is ADMISSIBLE (known Socket-Type, compatible with the local type under the RFC
+table, Identity of at most 255 bytes if any).  Then ONE poll of the handshake future completes with `Ok(ident)` and the
+connection IS a peer: it is in the socket's peer table under `ident`, with this connection's write half.  (Together
+with `C04_world_handshake_poll` — `Ok` only if such a greeting and such a READY head the stream — this is the "if and
+only if" of the property for the case where the peer's bytes are there; the correspondence's families `compat-plane`,
+`deviation-*`, `product-*` exercise exactly these hypotheses against the real sockets.) -/
+theorem C04_world_handshake_completes (n : Nat) (w : World) (sid pid : Nat) (rd : Rd) (wr : Wr) (s : Socket) (encG : Bytes)
+    (hs : getSock w sid = some s) (hns : s.typ ≠ .sub) (halive : s.dead = false)
+    (hb : wr.buf = []) (hfree : Free w.pipes wr.pipe)
+    (g : Greeting) (props : List (Bytes × Bytes)) (rest : List Item)
+    (hitems : rd.items w.pipes = .greeting g :: .command props :: rest) (hv : vOk g)
+    (hadm : Admissible s.typ props) :
+    ∃ ident w' s' wr', attachPoll (n + 4) w sid pid (.sendGreeting (.feeding encG)) rd wr = (w', .done, .ready (.okId ident)) ∧
+      getSock w' sid = some s' ∧ ilookup s'.peers ident = some wr' ∧ wr'.pipe = wr.pipe := by
+  obtain ⟨⟨ident, fresh'⟩, hr⟩ := (C04_admit_iff s.typ props w.fresh).mpr hadm
+  obtain ⟨w', s', wr', h1, h2, h3, h4⟩ :=
+    attachPoll_completes n w sid pid rd wr s encG hs hns halive hb hfree g props rest hitems hv ident fresh' hr
+  exact ⟨ident, w', s', wr', h1, h2, h3, h4⟩
+
+open Zmq.W in
+/-- non-vacuity of the side conditions of `C04_world_handshake_completes`: the library's own greeting has an acceptable
+version; a REP's READY with a 2-byte identity is admissible at a REQ; a fresh pipe takes every write.  (That a reader in
+front of `greeting ++ READY` bytes has `rd.items = [greeting, command]` is `C02_segmentation` + the decoder's grammar —
+exercised on the real sockets by every `compat-plane` case of the correspondence.) -/
+example : vOk Greeting.default ∧ Admissible .req [(kSocketType, SockType.rep.name), (kIdentity, [1, 2])] ∧
+    Free [] 7 := by
+  refine ⟨by unfold vOk; decide, ?_, by unfold Free wOf; decide⟩
+  exact (C04_admit_iff .req _ 0).mp ⟨_, rfl⟩
 
 end Zmq.C04
